@@ -18,11 +18,14 @@ func TestProp(t *testing.T) {
 	logrus.SetOutput(ioutil.Discard)
 	env := vh.GetEnv()
 	rep := vh.NewReport("C17", "exploration")
-	rep.Rule("question sequences: (okta) 10-30 steps of ask(user, permuted group subset, sometimes with a duplicate) / directory change / inner error (generic, wrapped, and the real providers.Err* / circuit-open / group-not-found values) / 'user who asked about A asks about a new related set B while the directory fails' / sleep past a 30-50 ms TTL against the real GroupCache+LocalCache, 12% with three concurrent askers; (okta-probe) pairs of different questions whose joined cache keys could coincide; (google, cognito) 5-9 steps of ask / concurrent ask pair / directory change / direct refresh / failing direct check / held fill against the real provider + real PopulateMembers + real FillCache, groups pre-filled, failing or held. FillCache histories: (fc-seq) 10-24 scripted Update/Get steps with fill outcomes ok/error/not-found plus one refresh loop; (fc-conc) 1-3 groups, held fills, 2-4 free-running workers, 35% with refresh loops (5-20 ms) and Stop. distinct = per question (user class, set size, relation to earlier questions, hit/miss/error) resp. (set size, definitely cached, definitely uncached, source) sequences; for FillCache the per-group operation shape (admitted/rejected begins, store/keep/delete ends, gets by version rank, overlap marks)")
+	rep.Rule("question sequences: (okta) 10-30 steps of ask(user, permuted group subset, sometimes with a duplicate) / directory change / inner error (generic, wrapped, and the real providers.Err* / circuit-open / group-not-found values) / 'user who asked about A asks about a new related set B while the directory fails' / sleep past a 30-50 ms TTL against the real GroupCache+LocalCache, 12% with three concurrent askers; (okta-probe) pairs of different questions whose joined cache keys could coincide; (google, cognito) 5-9 steps of ask / concurrent ask pair / directory change / direct refresh / failing direct check / held fill against the real provider + real PopulateMembers + real FillCache, groups pre-filled, failing or held. FillCache histories: (fc-seq) 10-24 scripted Update/Get steps with fill outcomes ok/error/not-found plus one refresh loop; (fc-conc) 1-3 groups, held fills, 2-4 free-running workers, 35% with refresh loops (5-20 ms) and Stop. distinct = per question (user class, set size, relation to earlier questions, hit/miss/error) resp. (set size, definitely cached, definitely uncached, source) sequences; for FillCache the per-group operation shape (admitted/rejected begins, store/keep/delete ends, gets by version rank, overlap marks). Directory histories (google-dir, cognito-dir): the provider built as options.go builds it (constructor, production FillCache over the provider's own PopulateMembers, single-flight wrapper; google: the real GoogleAdminService over HTTP to a fake Admin SDK directory API reached through a rewriting http.DefaultTransport; cognito: the AdminService field replaced by the directory), 2-3 groups whose member lists are exactly the directory state - ids unique per state, lists empty, paginated (page size 1-2), with a nested group, group deleted (404) and re-created - 7-13 phases of change / refresh (direct Update as a tick does it, or with a 5-20 ms refresh TTL two ticks of the provider's own loops) with 30-40% failing listings (500/503/403/429/400 on the first page, a later page or the nested group) / Get of every group + 1-2 questions (former members, current members, persistent users, strangers) / change without refresh / failing direct request; distinct = the stamp-ordered sequence of fill outcome classes, Get classes and question classes")
 	rep.Assume("the fake directory answers exactly as logged; a member list carries a marker member naming group and version so that a cached list identifies the directory answer it copies")
 	rep.Assume("okta stream: group names are strings GetProfile can produce (strings.Split of the form value on ','): no commas, the empty name never alone; comma-containing names are probed separately (okta-probe) and carry their input class in the signature")
 	rep.Assume("after Stop a refresh loop may still take ticks that were ready together with the stop signal (Go select is random among ready cases): the number of periodic fills after Stop is geometric when iterations are slower than the TTL; up to 20 per group are tolerated, a loop that does not stop passes any bound")
 	rep.Assume("stamps come from one atomic counter per case; Update call -> fill entry brackets the first lock acquisition, fill exit -> Update return the second; for fills made by loop goroutines the unobservable Update call/return are replaced by the neighbouring fill stamps of the same goroutine (wider intervals, still sound)")
+
+	rep.Assume("directory histories: a fill attempt is a call of AdminService.ListMemberships seen by a forwarding tap (goroutine id, call/return stamps); its outcome is what the fake directory did during that call (all pages and the nested group answered 200 = completed successful listing of the state snapshotted at the first page, an empty list included; 404 on the first page = group missing; anything else = failed); a fill is admitted only after the previous fill of the group has had its effect (the at-most-one-fill clause, checked by fc-conc), so the effect of a fill made by a loop goroutine happens before the group's next fill begins")
+	setupHistAPI(t.TempDir())
 
 	type streamDef struct {
 		name    string
@@ -38,6 +41,8 @@ func TestProp(t *testing.T) {
 		{"fc-conc", env.Pick(300, 8000), 96, func(i int) { runFillConc(rep, env, i) }},
 		{"google", env.Pick(450, 12500), 128, func(i int) { runProvider(rep, env, "google", i) }},
 		{"cognito", env.Pick(450, 12500), 64, func(i int) { runProvider(rep, env, "cognito", i) }},
+		{"google-dir", env.Pick(300, 3500), 128, func(i int) { runHist(rep, env, "google", i) }},
+		{"cognito-dir", env.Pick(220, 3000), 128, func(i int) { runHist(rep, env, "cognito", i) }},
 	}
 	replaying := false
 	start := time.Now()
@@ -82,6 +87,24 @@ func TestProp(t *testing.T) {
 		rep.Floor("fills_error", 50)
 		rep.Floor("fills_notfound", 20)
 		rep.Floor("probe_pairs_kept_apart", 10)
+		for _, kind := range []string{"google", "cognito"} {
+			pre := kind + "_dir_"
+			rep.Floor(pre+"cache_gets_judged", 1000)
+			rep.Floor(pre+"answers_from_cache_judged", 200)
+			rep.Floor(pre+"answers_after_asking_the_directory_judged", 100)
+			rep.Floor(pre+"completed_listings_with_no_members", 50)
+			rep.Floor(pre+"seen_refresh_to_empty_list_replace_a_nonempty_list", 30)
+			rep.Floor(pre+"seen_former_member_of_an_emptied_group_answered_not_a_member", 5)
+			rep.Floor(pre+"seen_refresh_replace_a_list", 100)
+			rep.Floor(pre+"seen_failed_refresh_keep_the_list", 50)
+			rep.Floor(pre+"seen_failed_refresh_keep_an_empty_list", 5)
+			rep.Floor(pre+"seen_missing_group_dropped", 15)
+			rep.Floor(pre+"seen_recreated_group_cached_again", 5)
+			rep.Floor(pre+"seen_loop_tick_refresh_stored", 20)
+		}
+		rep.Floor("google_dir_seen_list_of_several_pages_cached", 30)
+		rep.Floor("google_dir_seen_list_with_nested_members_cached", 10)
+		rep.Floor("google_dir_admin_service_results_compared", 500)
 		for _, k := range errKinds[1:] {
 			rep.Floor("okta_error_on_miss_after_success_for_other_set_"+k.name, 20)
 			if k.name != "group-not-found" {
